@@ -6,6 +6,8 @@ from .c01 import AEAD_ALGS, HASH_TOK, AEAD_TOK
 
 def run(chk):
     P = cf.Program()
+    import re as _re
+    from . import clones
     chk.explanation = ('NOT decided: equality of tags with the published hash/MAC specifications. Decided: in every variant every hash '
                        'table cell dispatches algorithm i to kernels of that algorithm and digest size (HMAC vs plain kept apart), parks '
                        'and flushes jobs in the same out-of-order manager, and every hash/MAC/CRC macro->kernel binding agrees in '
@@ -13,3 +15,4 @@ def run(chk):
     inits.rule_bindings(chk, P, 'B1', select=lambda k, v: bool(HASH_TOK.search(k)) and not AEAD_TOK.search(k), floor=300)
     c06.run(chk, alg_filter=lambda a: a not in AEAD_ALGS and a not in ('IMB_AUTH_NULL', 'IMB_AUTH_CUSTOM'), only_cells=True,
             ids=('B2c', 'B2', 'B2o'))
+    clones.rule_clones(chk, 'N1', select=lambda s: bool(_re.search(r'cmac|xcbc|ghash|gmac|ccm_auth', s)), floor=3)
